@@ -161,6 +161,10 @@ def check_program(ctx, prog, layout, queries, scratch):
         progs = {sc.ent.name.lower(): sc for sc in prog.top_scopes if sc.ent.kind == "program"}
         pnames = {pn: {e.name.lower() for e in prog.ents if e.scope is not None and e.scope.unit() is sc} for pn, sc in progs.items()}
         have = [h for h in have if not (h[1] in progs and h[0] in pnames[h[1]] and q.lower() in h[0])]
+        # a prototype inside an (unnamed) abstract interface block is not declared *directly* in the module: either way
+        protos = {(m[0].lower(), (m[1] or "").lower(), m[2]) for m in members if m[4].kind == "proto"}
+        want = [w for w in want if w not in protos]
+        have = [h for h in have if h not in protos]
         if want != have:
             miss = [w for w in want if w not in have]
             extra = [h for h in have if h not in want]
@@ -227,8 +231,13 @@ def replay(ctx, case):
             sl, el = rg["start"]["line"], rg["end"]["line"]
             if sl >= len(lines) or g["name"].lower() not in lines[sl].lower():
                 discs.append(Disc(case.get("signature", "outline:replay"), f"{n}: entry {g['name']} at line {sl} not on a line naming it"))
-            elif g["kind"] in (2, 12, 5, 11) and el >= sl and not re.match(r"\s*(\d+\s+)?end", lines[el], re.I) and el != sl:
+            elif g["kind"] in (2, 12, 5, 11) and el >= sl and not re.match(r"\s*(\d+\s+)?end(?!\s*file)", lines[el], re.I) and el != sl:
                 discs.append(Disc(case.get("signature", "outline:replay"), f"{n}: entry {g['name']} ends at line {el} which is not an END statement: {lines[el]!r}"))
+        if "outline" in case and n in case["outline"]:
+            have = sorted([g["name"].lower(), g["kind"], (g.get("containerName") or "").lower(), g["location"]["range"]["start"]["line"],
+                           g["location"]["range"]["end"]["line"]] for g in resp.get("result") or [])
+            if have != sorted(case["outline"][n]):
+                discs.append(Disc(case.get("signature", "outline:replay"), f"{n}: outline {have} != expected {sorted(case['outline'][n])}"))
     for q in case.get("queries", []):
         resp, _ = srv.request("workspace/symbol", {"query": q})
         names = [g["name"] for g in resp.get("result") or []]
